@@ -128,6 +128,17 @@ if __name__ == '__main__':
             meta = json.load(open(os.path.join(VERIF, 'seeded', d, 'meta.json')))
             checks = [meta['property']] + [c for c in meta.get('detected_by', {}) if c != meta['property']]
             do_eval(d, checks)
+    elif sys.argv[1] == 'evalfinal':
+        # the check of the seed's own property plus every check that detected it before
+        for d in sorted(os.listdir(os.path.join(VERIF, 'seeded'))):
+            if not os.path.isdir(os.path.join(VERIF, 'seeded', d)):
+                continue
+            if len(sys.argv) > 2 and not any(d.startswith(x) for x in sys.argv[2:]):
+                continue
+            meta = json.load(open(os.path.join(VERIF, 'seeded', d, 'meta.json')))
+            det = meta.get('detected_by', {})
+            checks = [meta['property']] + [c for c, v in det.items() if c != meta['property'] and v.get('exit') == 1 and v.get('violations', 0) > 0]
+            do_eval(d, checks)
     elif sys.argv[1] == 'evalpending':
         # seeds never evaluated, or whose last evaluation was a harness error (exit 2/3)
         for d in sorted(os.listdir(os.path.join(VERIF, 'seeded'))):
